@@ -281,7 +281,10 @@ type App struct {
 }
 
 // Pfd sends a PFD Management Request that provisions the given applications.
-func (w *World) Pfd(peer string, apps []App) []pfcpx.Dgram {
+func (w *World) Pfd(peer string, apps []App) []pfcpx.Dgram { return w.PfdRaw(peer, apps, false) }
+
+// PfdRaw is Pfd; with allowEmpty an empty text in Texts is sent as an empty flow description (a request the agent rejects).
+func (w *World) PfdRaw(peer string, apps []App, allowEmpty bool) []pfcpx.Dgram {
 	p := w.Peer(peer)
 	seq := p.NextSeq()
 
@@ -298,7 +301,7 @@ func (w *World) Pfd(peer string, apps []App) []pfcpx.Dgram {
 			txt := f.Text()
 			ok := true
 
-			if i < len(a.Texts) && a.Texts[i] != "" {
+			if i < len(a.Texts) && (a.Texts[i] != "" || allowEmpty) {
 				txt = a.Texts[i]
 				ok = false
 			}
